@@ -153,8 +153,18 @@ def shaper_kwargs(case, graph_kwargs=None):
     cfg = case["cfg"]
     kw = {}
     if graph_kwargs is None:
-        kw["raw_graph"] = M.to_nt(M.from_json_graph(case["graph"]))
-        kw["input_format"] = C.NT
+        # the same abstract graph may reach the library through another channel than an N-Triples string (case["channel"]):
+        # a Turtle / RDF-XML text parsed by rdflib, or an rdflib Graph built by the caller
+        ch = case.get("channel", "nt")
+        T = M.from_json_graph(case["graph"])
+        if ch == "rdflib":
+            kw["rdflib_graph"] = M.to_rdflib(T)
+        elif ch in ("turtle", "xml"):
+            kw["raw_graph"] = M.to_rdflib(T).serialize(format=ch)
+            kw["input_format"] = C.TURTLE if ch == "turtle" else C.RDF_XML
+        else:
+            kw["raw_graph"] = M.to_nt(T)
+            kw["input_format"] = C.NT
     else:
         kw.update(graph_kwargs)
     if cfg["nsDict"]:
@@ -164,7 +174,12 @@ def shaper_kwargs(case, graph_kwargs=None):
     if cfg["mode"] in ("all", "mixed"):
         kw["all_classes_mode"] = True
     if cfg["mode"] == "classes":
-        kw["target_classes"] = [spell(c, cfg) for c in cfg["targets"]]
+        if case.get("targetsPath"):       # the classes listed in a file (file_target_classes), one per line
+            with open(case["targetsPath"], "w", encoding="utf8") as fh:
+                fh.write("".join(spell(c, cfg) + "\n" for c in cfg["targets"]))
+            kw["file_target_classes"] = case["targetsPath"]
+        else:
+            kw["target_classes"] = [spell(c, cfg) for c in cfg["targets"]]
     if cfg["mode"] in ("shapemap", "mixed"):
         kw["shape_map_raw"] = shape_map_text(cfg)
         kw["shape_map_format"] = C.JSON if cfg["smSyntax"] == "json" else C.FIXED_SHAPE_MAP
@@ -358,6 +373,8 @@ def run_case(case, graph_kwargs=None, want_text=False):
         return res
     fmt = C.SHEXC if cfg["format"] == "shexc" else C.SHACL_TURTLE
     thr = cfg["thr"][0] / cfg["thr"][1]
+    for b in case.get("before", []):      # earlier calls on the same Shaper with other thresholds; only the last call is judged
+        call_guarded(lambda: shaper.shex_graph(string_output=True, acceptance_threshold=b[0] / b[1], output_format=fmt), timeout=60)
     if cfg.get("sink") == "file":      # output file instead of returned string
         import tempfile
         import shutil
